@@ -40,7 +40,7 @@ ANCHORS = [("deap/tools/_hypervolume/_hv.c", []), ("deap/tools/_hypervolume/hv.c
            ("deap/benchmarks/tools.py", ["hypervolume"])]
 LEVEL = "proof"
 RULE = ("order of the streams: corpus of 6 fixed regression inputs; exhaustive: every multiset of <=3 points over {0..3}^d, "
-        "d<=3, with ref=3^d (boundary points) and ref=4^d (quick: the 3-point multisets in d=3 are a seeded 1/12 sample; "
+        "d<=3, with ref=3^d (boundary points) and ref=4^d (quick: the 3-point multisets in d=3 are a seeded 1/20 sample; "
         "thorough: all of them, plus every 4-point multiset for d<=2 and a seeded sample of 150000 4-point multisets in d=3); "
         "wrappers: populations of 2..8 individuals with 1..5 objectives (mostly 2..4), every min/max mixture and dyadic "
         "weights, with the fitness class varied (base.Fitness, base.ConstrainedFitness feasible / violating, a class whose "
@@ -54,14 +54,21 @@ RULE = ("order of the streams: corpus of 6 fixed regression inputs; exhaustive: 
         "exact values within 1e-12 relative, indicator index within 1e-12*total of the least exact loss; random exact sets: "
         "1..12 points in 1..7 dimensions in the modes general-position / heavy ties ({0..k}^d, k=1..3) / duplicates / dominated "
         "/ boundary / dyadic / negative / per-axis references / anti-chain fronts, every permutation of the points for <=5 "
-        "points; a tie-heavy stream in d=4..7. Every exact hypervolume case also runs the transcribed sweep against pyhv's "
-        "value and internal state. Non-trivial = distinct case with at least 2 points (individuals) and a positive hypervolume")
+        "points; a tie-heavy stream in d=4..7. Added for the compiled routine and the round-5 changes (placed before the calling "
+        "conventions): populations whose fitnesses hash alike (weighted values -1.0 / -2.0 twins, duplicates) for the indicator; "
+        "7-D (some 6-D) sets of 4..12 points with repeated coordinates for the extension alone (cached slices of hv_recursive; every "
+        "4th also through the transcription); small-integer sets with every axis in units of 2^-40..2^100 (objectives of very different "
+        "magnitude, arithmetic still exact). Every exact hypervolume case runs the transcribed pyhv sweep against pyhv's value and "
+        "internal state AND the transcribed _hv.c (Core/HvC.lean) against the extension's value (and hvSlice). Non-trivial = distinct "
+        "case with at least 2 points (individuals) and a positive hypervolume")
 EXHAUSTIVE = {"quick": False, "thorough": False}
 TIME_BUDGET = {"quick": 55, "thorough": 840}
 TRUSTED = ["IEEE-754: the test coordinates are small dyadic rationals chosen so that every product and sum formed by the "
            "sweep algorithms is exact in binary64 (checked per case: range^d * 2^n < 2^62), so the Rat model and the "
            "float implementations compute the same numbers",
            "the C compiler and CPython extension loading (the extension is rebuilt from the working tree on every run)",
+           "qsort in setup_cdllist is modelled as a stable sort (glibc: merge sort for arrays of this size; ISO C leaves the order of "
+           "equal keys open - the value does not depend on it: proved for <= 3 objectives, observed otherwise)",
            "numpy.argmax returns the first maximal index (modelled by argmaxFirst)"]
 ASSUMPTIONS = ["float regime: the implementations are compared with the exact Rat model evaluated at the doubles' exact values, "
                "tolerance 1e-12 relative (observed error < 1e-15); no claim about overflow/underflow ranges",
@@ -71,7 +78,9 @@ ASSUMPTIONS = ["float regime: the implementations are compared with the exact Ra
                "dimension), the two wrappers, and the transcription Core/HvSweep.lean of pyhv's algorithm (correct in every "
                "dimension over exact rationals); that pyhv.py executes that transcription is checked by the correspondence run "
                "(value and internal state), float rounding is outside the proof; the C extension (_hv.c, variant 4 with AVL "
-               "tree) is validated against hvSlice only"]
+               "tree) is transcribed in Core/HvC.lean (AVL library abstracted to the ordered sequence it represents) and proved "
+               "correct for 1..3 objectives; for >= 4 objectives (general case of hv_recursive, 3-D base case re-entered with a "
+               "finite bound[2]) it is validated against the transcription and hvSlice only (value correspondence)"]
 EXPLANATION = ("The ALGORITHM of pyhv (preProcess, hvRecursive with bounds pruning / cached areas and volumes / ignore marking / "
                "remove / reinsert) is transcribed in Core/HvSweep.lean and diffed on every hypervolume case against pyhv's value AND "
                "its observable final state (hvRecursive calls per dimIndex, node order of every dimension list, ignore flags, area "
@@ -81,6 +90,10 @@ EXPLANATION = ("The ALGORITHM of pyhv (preProcess, hvRecursive with bounds pruni
                "hypervolume of the prefix, ignore marks = domination by an earlier present node), termination with the lists "
                "restored, coordinate symmetry, slab decomposition. Theorems C15.* : hvCells = Lebesgue measure of the union of boxes "
                "(all dimensions), hvSlice = hvCells (discrete Fubini), invariances, 1-D/2-D formulas, indicator_least, population_hv. "
+               "The C routine fpli_hv of _hv.c is transcribed in Core/HvC.lean (setup_cdllist, filter, hv_recursive VARIANT 4 incl. the "
+               "3-D base case with domr / bound[2]; AVL tree = abstract ordered sequence) and diffed on every hypervolume case against the "
+               "rebuilt extension's value; proved: C15.hvC_setup_filter, hvC_le_one_point (every dimension), hvC_eq_hvCells_partial / "
+               "hvC_total_partial (1..3 objectives, all inputs), hvC_base_dim3_fresh; open: hvC_eq_hvCells_Statement for >= 4 objectives. "
                "Both implementations are diffed against hvSlice on exactly representable inputs; an inclusion-exclusion oracle checks "
                "them independently.")
 
@@ -597,6 +610,21 @@ def eval_hv(d):
     if not exactness_ok(pts, ref):
         raise BadCase("coordinates too large for exact binary64 arithmetic")
     want = measure(pts, ref)
+    if d.get("scale"):
+        # axis j in units of 2^e_j: every quantity the sweeps form is homogeneous in each axis, so the computation
+        # is the small-integer one times a power of two - still exact in binary64 (|e_j| <= 100, d <= 7: no
+        # overflow / underflow), and the measure is the unscaled one times 2^(sum e_j)
+        ex = [int(e) for e in d["scale"]]
+        if len(ex) != dim or any(abs(e) > 100 for e in ex):
+            raise BadCase("malformed scale")
+        fac = [Fr(2) ** e for e in ex]
+        pts = [[x * f for x, f in zip(p, fac)] for p in pts]
+        ref = [x * f for x, f in zip(ref, fac)]
+        for f in fac:
+            want *= f
+    c_only = d.get("only") == "c"
+    if c_only:
+        return eval_hv_c_only(d, pts, ref, want)
     orders = [list(range(n))]
     if d["k"] == "perm":
         orders = [list(o) for o in itertools.permutations(range(n))]
@@ -625,16 +653,36 @@ def eval_hv(d):
             # its first answer token compares the transcription with hvSlice inside the driver
             lines.append("C15 sweep %s %s" % (slist(ref), spts(q)))
             expect.append("ok %s %s" % ("non-finite" if gp is None else sfr(gp), state))
-            # the compiled extension against hvSlice (pyhv's value travels in the sweep line, whose first token
-            # says that the transcription equals hvSlice; a wrong pyhv value is reported by the oracle above)
-            lines.append("C15 hv %s %s" % (slist(ref), spts(q)))
-            expect.append("non-finite" if gc is None else sfr(gc))
+            # the compiled extension against the transcription of _hv.c (Core/HvC.lean): same value; the first answer
+            # token says that the transcription equals hvSlice, so this line also diffs the extension against hvSlice
+            # (pyhv's value travels in the sweep line; a wrong pyhv value is reported by the oracle above)
+            lines.append("C15 chv %s %s" % (slist(ref), spts(q)))
+            expect.append("ok %s" % ("non-finite" if gc is None else sfr(gc)))
     if n <= 4 and dim <= 3:
         # small inputs: the two specification-level definitions answer too (model-internal agreement)
         lines += ["C15 cells %s %s" % (slist(ref), spts(pts)), "C15 ie %s %s" % (slist(ref), spts(pts))]
         expect += [sfr(want), sfr(want)]
-    tag = "%s/%s/d=%s/n=%s" % (d["k"], d.get("mode", "-"), dim if dim <= 3 else ("4-5" if dim <= 5 else "6-7"),
+    tag = "%s/%s/d=%s/n=%s" % (d["k"], d.get("mode", "-") + ("/scaled" if d.get("scale") else ""), dim if dim <= 3 else ("4-5" if dim <= 5 else "6-7"),
                                "1-2" if n <= 2 else ("3-4" if n <= 4 else ("5-8" if n <= 8 else "9-12")))
+    return Case(d, lines, expect, orc, tag=tag, nontrivial=(n >= 2 and want > 0))
+
+
+def eval_hv_c_only(d, pts, ref, want):
+    """the stream for the compiled extension's cached slices (`bound`, `vol`, `area`, `ignore >= dim` in the general
+    case of hv_recursive, the re-entered 3-D base case): only reached with several nested general levels, i.e. in
+    6-7 dimensions, and only wrong on repeated coordinates.  pyhv is not run here (it has its own streams; in 7-D it
+    costs 10x the extension), so many more sets fit the budget.  Clause: the extension returns the measure."""
+    dim, n = len(ref), len(pts)
+    gc = call_c_many([pts], ref)[0]
+    orc = None
+    if gc != want:
+        orc = "hv.c: hypervolume of %s w.r.t. %s is %s, extension returned %s" % (
+            spts(pts), slist(ref), sfr(want), "non-finite" if gc is None else sfr(gc))
+    lines, expect = [], []
+    if d.get("line", True):
+        lines.append("C15 chv %s %s" % (slist(ref), spts(pts)))
+        expect.append("ok %s" % ("non-finite" if gc is None else sfr(gc)))
+    tag = "hv-c-only/%s/d=%s/n=%s" % (d.get("mode", "-"), dim, "1-4" if n <= 4 else ("5-8" if n <= 8 else "9-12"))
     return Case(d, lines, expect, orc, tag=tag, nontrivial=(n >= 2 and want > 0))
 
 
@@ -712,8 +760,8 @@ def eval_ind(d):
         lines = ["C15 ind %s %s %s" % (slist(w), spts(vals), "none" if ref is None else slist(ref))]
         expect = ["%d %s" % (idx, ",".join("non-finite" if x is None else sfr(x) for x in b_loo))]
     ties = len(set(loo)) < n
-    tag = "ind/%s/m=%d/%s%s/%s" % (name, len(w), "defref" if ref is None else "ref", "/tied-contrib" if ties else "",
-                                    d.get("fit", "plain"))
+    tag = "ind/%s/m=%d/%s%s/%s%s" % (name, len(w), "defref" if ref is None else "ref", "/tied-contrib" if ties else "",
+                                      d.get("fit", "plain"), "/" + d["style"] if d.get("style") else "")
     return Case(d, lines, expect, orc, tag=tag, nontrivial=(total > 0))
 
 
@@ -800,7 +848,11 @@ def eval_conv(d):
             orc = "%s: second call on the same %s arguments (%s w.r.t. %s) returned %s after %s" % (who[target], form, spts(pts), slist(ref), v2, v1)
         elif not unchanged:
             orc = "%s: the caller's %s arguments (%s w.r.t. %s) were modified by the call" % (who[target], form, spts(pts), slist(ref))
-        if not (target == "py" and g1 != want):
+        if target == "c":
+            # the extension against the transcription of _hv.c (and, through its first token, against hvSlice)
+            lines = ["C15 chv %s %s" % (slist(ref), spts(pts))]
+            expect = ["ok %s" % ("non-finite" if g1 is None else sfr(g1))]
+        elif g1 == want:
             lines = ["C15 hv %s %s" % (slist(ref), spts(pts))]
             expect = ["non-finite" if g1 is None else sfr(g1)]
     else:
@@ -1042,6 +1094,87 @@ def random_population(rng):
     return w, [[sfr(x) for x in v] for v in vals], ref
 
 
+def hash_twin_population(rng):
+    """populations whose weighted values are small integers with many -1.0 / -2.0 entries and rows that differ only
+    there (CPython: hash(-1.0) == hash(-2.0), so such fitnesses hash alike although they are different points; also
+    exact duplicates).  Typically a (dominator, dominated) pair plus a few other individuals, in random order: the
+    dominated one is the unique least contributor (loss 0)."""
+    m = rng.choice([2, 2, 3, 3, 4])
+    n = rng.randint(3, 7)
+    w = [rng.choice(["-1", "-1", "1", "-2", "2", "1/2", "-1/2"]) for _ in range(m)]
+    ncol = rng.randint(1, min(2, m))
+    cols = rng.sample(range(m), ncol)                       # the columns whose (minimised) coordinates are 1 or 2
+    hi = rng.choice([3, 5, 6])
+    base = []
+    while len(base) < max(1, n - rng.randint(1, 2)):
+        q = [rng.randint(0, hi) for _ in range(m)]
+        for j in cols:
+            q[j] = rng.choice([1, 2])
+        base.append(q)
+    pts = [list(q) for q in base]
+    while len(pts) < n:
+        q = list(rng.choice(base))
+        j = rng.choice(cols)
+        q[j] = 3 - q[j]                                     # 1 <-> 2: the twin differs only by -1.0 / -2.0
+        pts.insert(rng.randrange(len(pts) + 1), q)
+    # wobj = -(value * weight) = pts  =>  value = -pts / weight (exact: weights are +-1, +-2, +-1/2)
+    vals = [[-Fr(c) / Fr(w[i]) for i, c in enumerate(q)] for q in pts]
+    ref = None
+    if rng.random() < 0.5:
+        ref = [sfr(max(q[i] for q in pts) + rng.choice([1, 1, 2])) for i in range(m)]
+    return w, [[sfr(x) for x in v] for v in vals], ref
+
+
+def cached_slice_pointset(rng):
+    """7-D (some 6-D) point sets with repeated coordinates for the compiled extension (see eval_hv_c_only)"""
+    dim = rng.choice([7, 7, 7, 7, 6])
+    n = rng.choice([4, 6, 8, 9, 10, 10, 11, 12, 12])
+    style = rng.choice(["u3", "u5", "u5", "hi3", "u8", "front", "half"])
+    if style == "front":
+        sm = rng.randint(dim, 2 * dim)
+        pts = []
+        for _ in range(n):
+            cuts = sorted(rng.randint(0, sm) for _ in range(dim - 1))
+            pts.append([b - a for a, b in zip([0] + cuts, cuts + [sm])])
+        top = sm + rng.choice([0, 1])
+    elif style == "half":
+        kk = max(1, n // 2)
+        pts = [[rng.randint(0, kk) for _ in range(dim)] for _ in range(n)]
+        top = kk + 1
+    elif style == "hi3":
+        pts = [[rng.choice([0, 1, 2, 3, 3, 3]) for _ in range(dim)] for _ in range(n)]
+        top = 4
+    else:
+        kk = int(style[1:])
+        pts = [[rng.randint(0, kk) for _ in range(dim)] for _ in range(n)]
+        top = kk + rng.choice([0, 1, 1])
+    return "c7-" + style, [str(top)] * dim, [[str(x) for x in q] for q in pts]
+
+
+SCALES = [-40, -3, 0, 0, 0, 10, 30, 62, 64, 70, 100]
+
+
+def scaled_pointset(rng):
+    """small-integer point sets (ties, duplicates, boundary) whose axes are then expressed in units of 2^e_j,
+    e_j in -40..100: objectives of very different magnitudes (1e-12 .. 1e30), all arithmetic still exact"""
+    dim = rng.choice([1, 2, 3, 3, 3, 4, 4, 5, 6, 7])
+    n = rng.choice([1, 2, 3, 3, 4, 5, 6, 8])
+    kk = rng.choice([2, 3, 3, 5, 8])
+    if rng.random() < 0.4:
+        cols = [rng.sample(range(n + 2), n) for _ in range(dim)]
+        pts = [[cols[j][i] for j in range(dim)] for i in range(n)]
+        ref = [n + 2] * dim
+    else:
+        pts = [[rng.randint(0, kk) for _ in range(dim)] for _ in range(n)]
+        ref = [kk + rng.choice([0, 1, 1, 2]) for _ in range(dim)]
+    if rng.random() < 0.3:
+        off = rng.randint(1, 9)                             # negative coordinates / the origin as reference
+        pts = [[x - off for x in q] for q in pts]
+        ref = [x - off for x in ref]
+    exps = [rng.choice(SCALES) for _ in range(dim)]
+    return "scaled", [str(x) for x in ref], [[str(x) for x in q] for q in pts], exps
+
+
 def exhaustive(tier, rng):
     thorough = tier == "thorough"
     for dim in (1, 2, 3):
@@ -1054,7 +1187,7 @@ def exhaustive(tier, rng):
                 # C(67,4) = 766480 multisets: seeded sample
                 sets = (tuple(rng.choice(grid) for _ in range(4)) for _ in range(150000))
             for s in sets:
-                if n == 3 and dim == 3 and not thorough and rng.random() >= 0.085:
+                if n == 3 and dim == 3 and not thorough and rng.random() >= 0.05:
                     continue
                 for r in ("3", "4"):
                     yield {"k": "hv", "mode": "exh-ref%s" % r, "ref": [r] * dim, "pts": [list(p) for p in s]}
@@ -1160,6 +1293,21 @@ def generate(tier, rng, mult):
                 if kind == "pop" and ref is not None and rng.random() < 0.5:
                     dd["reflist"] = True
                 yield dd
+    # 2b. the indicator on populations whose fitnesses hash alike (weighted values -1.0 / -2.0) or are equal
+    for _ in range((3000 if thorough else 350) * mult):
+        w, vals, ref = hash_twin_population(rng)
+        impl = rng.choice(["c", "c", "py"])
+        yield {"k": "ind", "impl": impl, "w": w, "vals": vals, "ref": ref, "fit": rng.choice(["plain", "plain", "constrained"]),
+               "style": "hash-twins"}
+    # 2c. the compiled extension's cached slices: 7-D sets with repeated coordinates, extension only (every 4th
+    #     case also runs the transcription Core/HvC.lean)
+    for i in range((12000 if thorough else 1000) * mult):
+        mode, ref, pts = cached_slice_pointset(rng)
+        yield {"k": "hv", "mode": mode, "ref": ref, "pts": pts, "only": "c", "line": i % 4 == 0}
+    # 2d. objectives of very different magnitudes: axes in units of 2^-40 .. 2^100
+    for _ in range((3000 if thorough else 250) * mult):
+        mode, ref, pts, exps = scaled_pointset(rng)
+        yield {"k": "hv", "mode": mode, "ref": ref, "pts": pts, "scale": exps}
     # 3. calling conventions (sequences, integer arrays, the same array twice)
     for c in conv_cases(rng, (4000 if thorough else 500) * mult):
         yield c
@@ -1174,13 +1322,13 @@ def generate(tier, rng, mult):
                 for impl in ("c", "py"):
                     yield {"k": "find", "mode": mode, "ref": ref, "pts": pts, "impl": impl}
     # 5. random exact point sets
-    nrand = (30000 if thorough else 3000) * mult
+    nrand = (30000 if thorough else 2600) * mult
     for i in range(nrand):
         mode, ref, pts = random_pointset(rng, thorough)
         kind = "perm" if (len(pts) <= 5 and (len(pts) <= 4 or rng.random() < 0.3)) else "hv"
         yield {"k": kind, "mode": mode, "ref": ref, "pts": pts}
     # 6. deep stream: the caching / `ignore` logic of both sweeps only works in d >= 4 (C: d >= 5) and errs only on ties
-    ndeep = (40000 if thorough else 3500) * mult
+    ndeep = (40000 if thorough else 2800) * mult
     for i in range(ndeep):
         dim = rng.choice([4, 5, 5, 6, 6, 7, 7])
         n = rng.choice([2, 3, 4, 4, 5, 6, 7, 8, 9, 10, 12])
@@ -1216,12 +1364,21 @@ def shrink(d):
         pts, ref = d["pts"], d["ref"]
         if d["k"] == "perm":
             yield dict(d, k="hv")
+        if d.get("line") is False:
+            yield dict(d, line=True)        # a stored failing input always carries its protocol line
         for i in range(len(pts)):
             if len(pts) > 1:
                 yield dict(d, pts=pts[:i] + pts[i + 1:])
         for j in range(len(ref)):
             if len(ref) > 1:
-                yield dict(d, ref=ref[:j] + ref[j + 1:], pts=[p[:j] + p[j + 1:] for p in pts])
+                e = dict(d, ref=ref[:j] + ref[j + 1:], pts=[p[:j] + p[j + 1:] for p in pts])
+                if d.get("scale"):
+                    e["scale"] = d["scale"][:j] + d["scale"][j + 1:]
+                yield e
+        if d.get("scale"):
+            for j, ej in enumerate(d["scale"]):
+                if ej != 0:
+                    yield dict(d, scale=d["scale"][:j] + [0] + d["scale"][j + 1:])
         for i, p in enumerate(pts):
             for j, x in enumerate(p):
                 for y in ("0", "1", ref[j]):
